@@ -456,4 +456,38 @@ PROPS["C17"] = {
     },
 }
 
+PROPS["C20"] = {
+    "lean": ["TinkVerif.Props.C20"],
+    "theorems": T("TinkVerif.Rand", "fields_flatten fields_getElem windows_disjoint positions_injective field_byte fields_congr "
+                  "fields_eq_iff_windows_eq fieldAt_layout aeadField_encryptWith aeadField_etm aeadField_xaes streamHeader_layout "
+                  "drawId_fresh drawId_first ids_pairwise_distinct"),
+    "harness": [{"name": "c20", "timeout": 3000}],
+    "rule": "with crypto/rand.Reader replaced by a recording tape: for every randomized AEAD key type (AES-GCM, AES-GCM-SIV, ChaCha20-/"
+            "XChaCha20-Poly1305, AES-CTR-HMAC all iv sizes, X-AES-GCM all salt sizes, KMS envelope DEK) × variants and for both streaming "
+            "AEADs, the iv/salt/nonce-prefix field read back from each ciphertext equals exactly the bytes drawn during that call, the "
+            "number drawn is the field length, histories of calls draw consecutive windows (model `fields`), replay of a tape reproduces "
+            "the output, one flipped tape byte flips the corresponding output byte; HPKE/ECIES ephemeral = public key of the drawn "
+            "scalar; ML-DSA / SLH-DSA signatures equal the reference deterministic signing with rnd = tape; RSA-PSS salt recovered from "
+            "the signature = tape; ECDSA signature a function of the tape; key generation material = tape; manager ids = tape words "
+            "with forced collisions redrawn; plus (real reader) repetition and per-byte chi-square screens as support; "
+            "non-trivial = every line, distinct by line hash",
+    "trusted_base": [KERNEL, TIE, PRIMS, "H_rand: the operating system's random source behind crypto/rand.Reader is i.i.d. uniform — the "
+                     "property's distributional clause is reduced to this hypothesis by the theorems; ML-KEM / X-Wing encapsulation "
+                     "randomness comes from the Go standard library's internal DRBG and is not observable through rand.Reader"],
+    "assumptions": ["distribution itself is not provable of an implementation: what is proved is that every random field is, byte for "
+                    "byte, a fresh window of the source"],
+    "manifest": {
+        "text": "Partial by nature (distribution is not a theorem about code). Theorems over every tape and every history of draws of any "
+                "lengths: the random fields of a history are, concatenated, exactly the tape window consumed; draw i is the window at its "
+                "own offset and of its full length; windows of different draws are disjoint and (draw, byte) ↦ tape position is injective "
+                "(no byte of the source reused, none constant or truncated); outputs depend on the window only (replay); ciphertext "
+                "layouts return the drawn nonce; newRandomKeyID returns the first available drawn word and ids of one manager are pairwise "
+                "distinct after any history (C11 invariant). Tie: real code under a recording tape must consume and place bytes exactly as "
+                "the model says.",
+        "design_ref": "DESIGN.md §5.20",
+        "note": "Trusted: Lean kernel; H_rand for the OS source; stdlib-internal DRBG (ML-KEM) only screened for repetition.",
+        "technique": "Lean 4 proof (tape-consumption model: windows, disjointness, layouts, key-id redraw) + Go/Lean correspondence under a recording crypto/rand tape",
+    },
+}
+
 NOT_BUILT = {}
